@@ -220,7 +220,13 @@ def judgeEvict (st : JSt) (root : Path) (I I' : List Row) (F F' : FS) : Except S
   let D := (fsKeys F).filter (fun k => (F'.lookup k).isNone)
   -- confinement: nothing outside the managed root disappears
   match D.find? (fun k => !isPrefix root k) with
-  | some k => throw s!"[outside-root-deleted] {showPath k} lies outside the managed root {showPath root} and was deleted"
+  | some k =>
+    -- the one escape the code is known to allow: a symbolic link that does not resolve
+    let dangling := match F.lookup k, canonicalize F k with
+      | some (.link _), .error _ => true
+      | _, _ => false
+    let tag := if dangling then "[outside-root-deleted:dangling-link]" else "[outside-root-deleted]"
+    throw s!"{tag} {showPath k} lies outside the managed root {showPath root} and was deleted"
   | none => pure ()
   -- bookkeeping: a row is not kept while the pass deletes its file
   match I'.find? (fun r => rowPresent F root r && !rowPresent F' root r) with
